@@ -11,7 +11,10 @@ RULE = ("one evaluation = one Execute of a real FunctionJob / ShellJob / CurlJob
         "2xx-3xx, Execute returns the underlying error, accessors = the last execution, callback once per execution, fields of ONE execution after "
         "8x40 concurrent executions, 2..4 OVERLAPPING executions of one unwrapped FunctionJob with a scripted (channel-synchronised) completion order (all orders "
         "of 2 and 3 with every nil/error combination, seeded orders of 4: after each completion the accessors are those of the execution that completed last, "
-        "whichever started last), cancellation aborts a sleeping function / `sleep 5` / a hanging HTTP handler within 2 s, and goroutines / descriptors / "
+        "whichever started last), 72 executions of a FunctionJob that does not watch its context under a context that is over when the function returns "
+        "(cancelled / past its deadline, before the call / during the run, channel-synchronised; nil and own errors, fresh job and second execution): the outcome "
+        "is what the function returned, a simple command that ignores SIGINT (`trap '' INT; exec sleep 4`, context cancelled / timed out once the trap is "
+        "installed) is gone within 2 s, cancellation aborts a sleeping function / `sleep 5` / a hanging HTTP handler within 2 s, and goroutines / descriptors / "
         "child processes / open bodies after 100 vs 300 sequential + 8x40 concurrent executions differ by at most a small constant. "
         "non-trivial = every evaluation executes real code; distinct by protocol line")
 
